@@ -76,6 +76,10 @@ claim("C13", "composition of four operator tables (formatter, lexer, token displ
       "Thin: for all 13 binary operators the text the formatter prints is lexed to a token that both expression parsers turn back into the same operator, and Token's Display prints what the lexer reads; the parser's layer nesting orders operators as BinOp::precedence() (which the formatter parenthesises by); the formatter's right-associative set equals the set of layers the parser folds to the right, with the matching side lowered; Formatter::expr/pattern/annotation/definition have an explicit arm per variant.",
       "layout-dependent re-parsing, comment placement, idempotence and shape-specific defects are not decided; a defect such as `Foo { i: _, b: True }` -> `Foo(i: _, b: True)` is outside these rules' reach", "DESIGN.md §3 C13", "shape")
 
+claim("C14", "who-may-read audit of the trace level, erasure equality of level-selected alternatives, total decision table, sibling agreement of the two expect decoders",
+      "The trace level is read only in the reviewed functions; at each reader the alternatives selected by the level are equal after erasing trace wrappers and message text (`trace`/`todo`/`fail` typing, the validator wrapper, the `?` operator incl. `if v {True} else {False}` = v, the expect failure continuation = delayed error); Tracing::trace_level is a total table returning the stored level or Silent; every branch on the presence of an `otherwise` continuation is a reviewed one and the two decoders it selects agree per type kind.",
+      "purity of message expressions (a trace argument that aborts runs only when tracing is on) and preservation of the equivalence by the optimiser are not decided", "DESIGN.md §3 C14", "shape")
+
 
 def main():
     props = [json.loads(l) for l in open(os.path.join(HERE, "properties.jsonl"))]
